@@ -485,3 +485,9 @@ func SharedRO(p interface{}) {}
 
 // MutexAcquisitions: how many times Lock was called on the mutex so far (engine ghost counter).
 func MutexAcquisitions(m interface{}) int { return 0 }
+
+// SkipRun declares the current combination of case-split parameters redundant (covered by another run).
+func SkipRun() { panic(Skip{"redundant case combination"}) }
+
+// Native reports whether the harness runs natively (replay / native search): false in the engine.
+func Native() bool { return true }
